@@ -1147,3 +1147,66 @@ Lemma queue_next_is_C10 (enc : batch -> Verif.Model.Queue.batch) max q :
   | b :: r => (map enc r, Verif.Model.Queue.RBatch (enc b))
   end.
 Proof. destruct q; reflexivity. Qed.
+
+(* ---- (7) hand-out of the WHOLE head batch, whatever it holds, and restarts keep the queue records ------------------
+   sequencers/single queue.go Next / sequencer.go GetNextBatch ignore GetNextBatchRequest.MaxBytes (block/manager.go
+   retrieveBatch passes none): the batch at the head is handed out with ALL its transactions — the model has no
+   notion of transaction size, [b] below is any list — its record is deleted, and (clock permitting) the block of
+   the same step holds exactly [b].  A clean restart rebuilds the queue from the records ([stale ++ queue]) and
+   touches nothing else.  The harness drives hand-offs whose total size lies just under / at / just over the byte
+   limits a size-aware hand-out would use (1 500 000 and others) and restarts the node right after the step that
+   took such a batch: a hand-out of a PART of the head contradicts [handout_whole] on the compared writes. *)
+
+Definition last_time (s : st) : option (option Z) :=
+  match th s with
+  | O => Some None
+  | S k => match nth_error (blocks s) k with Some b => Some (Some (b_time b)) | None => None end
+  end.
+
+Lemma last_time_length s lt : last_time s = Some lt -> nth_error (blocks s) (th s) = None -> length (blocks s) = th s.
+Proof.
+  unfold last_time. intros H1 H2. apply nth_error_None in H2.
+  destruct (th s) as [|k]; [lia|].
+  destruct (nth_error (blocks s) k) eqn:E; [|discriminate].
+  assert (k < length (blocks s)) by (apply nth_error_Some; rewrite E; discriminate). lia.
+Qed.
+
+Lemma handout_whole max gt s ts b q lt :
+  up s = true -> queue s = b :: q -> nth_error (blocks s) (th s) = None -> last_time s = Some lt ->
+  let s' := step max gt s (IRun (AProduce ts)) in
+  queue s' = q /\ stale s' = stale s /\ released s' = released s ++ [b] /\
+  writes_of (item_acts max gt s (IRun (AProduce ts))) =
+    (if before ts lt then [WQDel b; WMeta]
+     else [WQDel b; WMeta; WBlock (S (th s)) b ts false; WBlock (S (th s)) b ts true; WState (S (th s)); WHeight (S (th s))]) /\
+  (before ts lt = false ->
+     blocks s' = blocks s ++ [{| b_txs := b; b_time := ts; b_signed := true |}] /\ th s' = S (th s) /\ sh s' = S (th s) /\
+     fst (observe max gt s (IRun (AProduce ts))) = 3%N).
+Proof.
+  intros Hup Hq Hp Hl. pose proof (last_time_length s lt Hl Hp) as Hlen.
+  cbn [step item_acts observe acts_of pre fst snd]. rewrite Hup. unfold produce_acts.
+  unfold last_time in Hl.
+  destruct (th s) as [|k] eqn:Eth.
+  - injection Hl as <-. rewrite Hp, Hq. cbn [before].
+    destruct (blocks s) eqn:Eb; [|discriminate].
+    cbn. rewrite Hq, Eb. cbn. repeat split; reflexivity.
+  - destruct (nth_error (blocks s) k) as [lb|] eqn:El; [|discriminate]. injection Hl as <-.
+    rewrite Hp, Hq. destruct (before ts (Some (b_time lb))) eqn:Eb.
+    + cbn. rewrite Hq. repeat split; try reflexivity; discriminate.
+    + cbn [fst snd writes_of commit_tail code_of app]. unfold apply_acts. cbn [fold_left apply_act apply_wr pred].
+      cbn [queue stale released blocks th sh set_queue set_released set_blocks set_sh set_th set_mem up mem seen taken].
+      rewrite Hq. cbn [tl]. rewrite <- Hlen, set_nth_length. unfold commit_tail.
+      cbn [fold_left apply_act apply_wr pred queue stale released blocks th sh set_queue set_released set_blocks set_sh set_th set_mem up mem seen taken].
+      rewrite set_nth_last.
+      repeat split; reflexivity.
+Qed.
+
+Lemma restart_keeps_records max gt s :
+  sh s <> 0 ->
+  let s' := step max gt s (IRun ABoot) in
+  up s' = true /\ queue s' = stale s ++ queue s /\ stale s' = [] /\ blocks s' = blocks s /\ sh s' = sh s /\
+  seen s' = seen s /\ mem s' = mem s /\ taken s' = taken s /\ released s' = released s.
+Proof.
+  intros Hsh. cbn [step item_acts acts_of pre fst]. unfold boot_acts.
+  destruct (sh s =? 0) eqn:E; [apply Nat.eqb_eq in E; contradiction|].
+  cbn [app]. destruct (th s <? sh s); cbn; repeat split; reflexivity.
+Qed.
